@@ -859,33 +859,33 @@ Definition key_respects_modes (k : okey) : bool :=
 
 (* labels of sub-values are never flipped: whatever is yielded as NegativeValue by the object/array
    wrappers wraps a NEGATIVE value of the sub-schema, or is structural *)
-Lemma object_wrappers_keep_labels : forall c keys it,
+Lemma object_wrappers_keep_labels : forall c tok keys it,
   forallb key_respects_modes keys = true ->
-  In it (object_negatives c keys) ->
+  In it (object_negatives c tok keys) ->
   snd c = true /\ oi_label it = Neg /\ (oi_sub it = Some Neg \/ oi_sub it = None).
 Proof.
-  intros c keys it H Hin. unfold object_negatives in Hin.
+  intros c tok keys it H Hin. unfold object_negatives in Hin.
   destruct (snd c); [|destruct Hin]. split; [reflexivity|].
   apply in_flat_map in Hin. destruct Hin as (k & Hk & Hin).
   pose proof (forallb_in _ _ _ H Hk) as Hkr.
   destruct k as [subs|subs|sub|n|a]; cbn [object_key_negatives key_respects_modes] in *.
-  - destruct (wrap_all_labels _ _ _ _ Hkr Hin) as [H1 H2]. split; [exact H1|left; exact H2].
-  - destruct (wrap_all_labels _ _ _ _ Hkr Hin) as [H1 H2]. split; [exact H1|left; exact H2].
+  - destruct tok; [|destruct Hin]. destruct (wrap_all_labels _ _ _ _ Hkr Hin) as [H1 H2]. split; [exact H1|left; exact H2].
+  - destruct tok; [|destruct Hin]. destruct (wrap_all_labels _ _ _ _ Hkr Hin) as [H1 H2]. split; [exact H1|left; exact H2].
   - apply in_map_iff in Hin. destruct Hin as (m & Hit & Hm). subst it. cbn [oi_label oi_sub].
     split; [reflexivity|left]. f_equal. eapply cover_sub_negative_ctx; eassumption.
-  - apply in_map_iff in Hin. destruct Hin as (i & Hit & _). subst it. split; [reflexivity|right; reflexivity].
-  - destruct (addl_falsy a); [|destruct Hin]. destruct Hin as [Hit|[]]. subst it. split; [reflexivity|right; reflexivity].
+  - destruct tok; [|destruct Hin]. apply in_map_iff in Hin. destruct Hin as (i & Hit & _). subst it. split; [reflexivity|right; reflexivity].
+  - destruct (addl_falsy a && tok); [|destruct Hin]. destruct Hin as [Hit|[]]. subst it. split; [reflexivity|right; reflexivity].
 Qed.
 
 (* an unexpected property is added exactly when additionalProperties is falsy; for false that is a violation *)
-Lemma additional_negative_partial : forall c a it,
-  a <> AddlEmptySchema -> In it (object_negatives c [OKAdditional a]) -> addl_forbids a = true.
+Lemma additional_negative_partial : forall c tok a it,
+  a <> AddlEmptySchema -> In it (object_negatives c tok [OKAdditional a]) -> addl_forbids a = true.
 Proof.
-  intros c a it Ha Hin. unfold object_negatives in Hin. destruct (snd c); [|destruct Hin].
+  intros c tok a it Ha Hin. unfold object_negatives in Hin. destruct (snd c); [|destruct Hin].
   cbn [flat_map object_key_negatives app] in Hin. destruct a; cbn in Hin; [reflexivity|congruence|destruct Hin].
 Qed.
 Lemma additional_negative_refuted :
-  object_negatives (true, true) [OKAdditional AddlEmptySchema] = [{| oi_label := Neg; oi_via := WAdditional; oi_sub := None |}]
+  object_negatives (true, true) true [OKAdditional AddlEmptySchema] = [{| oi_label := Neg; oi_via := WAdditional; oi_sub := None |}]
   /\ addl_forbids AddlEmptySchema = false.
 Proof. vm_compute. intuition. Qed.
 
@@ -897,23 +897,23 @@ Definition sub_string : osub := {| os_pos := [Pos; Pos; Pos]; os_neg := [Neg; Ne
 Lemma callers_ctx_flips_labels :
   In {| oi_label := Neg; oi_via := WPatternProperty 0; oi_sub := Some Pos |} (wrap_all_callers_ctx (true, true) WPatternProperty [sub_string])
   /\ sub_respects_modes sub_string = true
-  /\ length (object_negatives (true, true) [OKProperties [sub_string]; OKPatternProperties [sub_string]; OKRequired 1; OKAdditional AddlFalse]) = 8%nat.
+  /\ length (object_negatives (true, true) true [OKProperties [sub_string]; OKPatternProperties [sub_string]; OKRequired 1; OKAdditional AddlFalse]) = 8%nat.
 Proof. vm_compute. intuition. Qed.
 
 (* ---- _positive_object ignores minProperties ---- *)
-Lemma object_subset_sizes_partial : forall r o minp d n,
-  (minp <= r)%nat -> In (d, n) (object_subset_sizes r o) -> (minp <= n)%nat.
+Lemma object_subset_sizes_partial : forall r o extra minp d n,
+  (minp <= r)%nat -> In (d, n) (object_subset_sizes r o extra) -> (minp <= n)%nat.
 Proof.
-  intros r o minp d n Hr Hin. unfold object_subset_sizes in Hin.
+  intros r o extra minp d n Hr Hin. unfold object_subset_sizes in Hin.
   apply in_app_or in Hin. destruct Hin as [Hin|Hin].
-  - destruct (Nat.eqb o 1); [destruct Hin|]. apply in_map_iff in Hin. destruct Hin as (x & H & _). inversion H. lia.
+  - destruct (Nat.eqb o 1 && negb extra); [destruct Hin|]. apply in_map_iff in Hin. destruct Hin as (x & H & _). inversion H. lia.
   - apply in_app_or in Hin. destruct Hin as [Hin|Hin].
     + apply in_map_iff in Hin. destruct Hin as (x & H & _). inversion H. lia.
     + destruct (Nat.eqb o 0); [destruct Hin|]. destruct Hin as [H|[]]. inversion H. lia.
 Qed.
 (* two optional properties, minProperties 1: the object with only required properties is empty *)
-Lemma object_subset_sizes_refuted : In (OOnlyRequired, 0%nat) (object_subset_sizes 0 2) /\ (0 < 1)%nat.
+Lemma object_subset_sizes_refuted : In (OOnlyRequired, 0%nat) (object_subset_sizes 0 2 false) /\ (0 < 1)%nat.
 Proof. vm_compute. intuition. Qed.
 Lemma object_subset_sizes_nonvacuous :
-  object_subset_sizes 1 3 = [(OOneOptional, 2%nat); (OOneOptional, 2%nat); (OOneOptional, 2%nat); (OSubset, 3%nat); (OOnlyRequired, 1%nat)].
+  object_subset_sizes 1 3 false = [(OOneOptional, 2%nat); (OOneOptional, 2%nat); (OOneOptional, 2%nat); (OSubset, 3%nat); (OOnlyRequired, 1%nat)].
 Proof. reflexivity. Qed.
